@@ -412,6 +412,12 @@ func AllRegoVersions(root string, conf *Config) (map[string]ast.RegoVersion, err
 		}
 
 		if manifest.RegoVersion != nil {
+			// the root directory is keyed by the empty string, just like the
+			// project-wide rego-version of the config file (which must win over it)
+			if dir == "." {
+				dir = ""
+			}
+
 			versionsMap[dir] = regoVersionFromConfigValue(manifest.RegoVersion)
 		}
 	}
